@@ -54,10 +54,10 @@ def generate(gen, tier):
     # exhaustive permutations of small key sets through the sort op
     pools = [
         [[A('i'), 1], [A('i'), 2], [A('s'), 'a'], [A('s'), 'b']],
-        [[A('i'), 3], [A('i'), 1], [A('o'), 'vk.KU', A('0'), 0, 9001], [A('o'), 'vk.KU', A('0'), 0, 9002]],
-        [[A('o'), 'vk.KO', A('1'), 2, 9003], [A('o'), 'vk.KO', A('1'), 1, 9004], [A('o'), 'vk.KO', A('1'), 2, 9005], [A('i'), 0]],
+        [[A('i'), 3], [A('i'), 1], [A('o'), 'vk.KU', A('0'), 0, 900009001], [A('o'), 'vk.KU', A('0'), 0, 900009002]],
+        [[A('o'), 'vk.KO', A('1'), 2, 900009003], [A('o'), 'vk.KO', A('1'), 1, 900009004], [A('o'), 'vk.KO', A('1'), 2, 900009005], [A('i'), 0]],
         [[A('t'), 0, 1], [A('t'), 0], [A('t')], [A('s'), '']],
-        [[A('o'), 'vk.KU', A('0'), 0, 9006], [A('o'), 'vk.KV', A('0'), 0, 9007], [A('s'), 'x'], [A('i'), 5]],
+        [[A('o'), 'vk.KU', A('0'), 0, 900009006], [A('o'), 'vk.KV', A('0'), 0, 900009007], [A('s'), 'x'], [A('i'), 5]],
     ]
     import itertools
     for pool in pools:
